@@ -134,11 +134,18 @@ func cmdCheck(args []string) int {
 	for _, r := range runs {
 		engineErrs = append(engineErrs, r.Exec.errs...)
 		n, ok := 0, 0
+		unitFailed := false
+		for _, o := range r.Results {
+			if !o.IsCover && o.Status != "proved" {
+				unitFailed = true
+			}
+		}
 		for _, o := range r.Results {
 			solverTime += o.TimeS
 			if o.IsCover {
 				covers[o.Status]++
-				if o.Status == "vacuous" {
+				// (a failed obligation is assumed afterwards, which can make later points unreachable: not vacuity)
+				if o.Status == "vacuous" && !unitFailed {
 					engineErrs = append(engineErrs, fmt.Sprintf("%s: vacuous (%s is unsatisfiable)", o.Name, o.Msg))
 				}
 				continue
